@@ -89,7 +89,10 @@ const vector<string>& dict()
   static const vector<string> d = { "(", ")", "=", ",", ";", "[", "]", "$(", "\\\n", "\n", "\t", "#", "//", "/*", "*/", "seq(", "from=", "to=", "step=", "size=", "scale=", "log", "exp", "10^",
                                     "Gamma(", "Beta(", "Simple(", "Mixture(", "Invariant(", "Constant(", "Uniform(", "Gaussian(", "Exponential(", "TruncExponential(", "n=", "alpha=", "beta=", "mu=", "sigma=",
                                     "lambda=", "tp=", "value=", "values=", "probas=", "ranges=", "dist=", "dist1=", "p=", "begin=", "end=", "-inf", "+inf", "inf", "exp(", "log(", "*", "+", "-", "/", "\x1f", "e", "E",
-                                    ".", "1e-3", "0.5", "::", " ", "0", "1", "-1", "a", "\\", "\"", "\xff", string(1, '\0') };
+                                    ".", "1e-3", "0.5", "::", " ", "0", "1", "-1", "a", "\\", "\"", "\xff", string(1, '\0'),
+                                    // integers at the int / unsigned / long bounds and the notations that reach them; named / invalid table edits (bytes >= 0x80)
+                                    "2147483647", "2147483648", "-2147483648", "-2147483649", "4294967295", "4294967296", "9223372036854775807", "9223372036854775808", "e0", "e+0", "E00", ".0", "e1", "214748364",
+                                    "\xc0", "\x81", "\x88\xc8", "\xc0\x86\xd8\xc2", "\x84\xc4\x85\xc5" };
   return d;
 }
 
@@ -186,6 +189,114 @@ template<size_t T> void caseGen(vrt::Case& c)
     runOne(T, s, "mutant");
   }
 }
+
+// Directed generator 1: "editing a delimited table continues after a rejected edit".  A small table (0-4 rows, 0-4 columns, with or
+// without header / row names, names from a small pool so that duplicates and unknown names both occur) and a sequence of 3-16 edits
+// mixing the plain edits (bytes < 0x40) with the named / invalid ones (bytes >= 0x80: addRow(name, row) and addColumn(name, column) of
+// the right or a wrong size, deleteRow/deleteColumn by existing or unknown name, setRowNames/setColumnNames of the right or a wrong
+// length, setRowName, setRow, by-name and by-index reads).  The target catches every bpp::Exception, goes on, and checks the table
+// invariants after every step (fz::checkTable): a broken invariant is reported as table.foreign-exception|type=fz::InvariantBroken.
+void caseTableEdits(vrt::Case& c)
+{
+  const size_t T = 5; // "table"
+  for (int rep = 0; rep < 8; ++rep)
+  {
+    vrt::Rng& r = c.rng;
+    size_t nr = r.below(5), nc = r.below(5);
+    bool header = r.chance(0.7);
+    int rowNameMode = static_cast<int>(r.below(3)); // 0: none, 1: header one field shorter (automatic), 2: explicit column
+    string in;
+    unsigned char op = 4 | (header ? 1 : 0);
+    if (rowNameMode == 2) op |= 2;
+    in += static_cast<char>(op);
+    if (rowNameMode == 2) in += static_cast<char>(r.below(3));
+    // edits
+    size_t ne = 3 + r.below(14);
+    for (size_t i = 0; i < ne; ++i)
+    {
+      unsigned char e;
+      do
+      {
+        if (r.chance(0.7)) e = static_cast<unsigned char>(128 + 64 * r.below(2) + 8 * r.below(r.chance(0.7) ? 5 : 8) + r.below(8));
+        else e = static_cast<unsigned char>(r.below(64));
+      } while (e == 0x1f);
+      in += static_cast<char>(e);
+    }
+    in += '\x1f';
+    bool dupNames = r.chance(0.1);
+    if (header)
+    {
+      for (size_t j = 0; j < nc; ++j) { if (j) in += '\t'; in += "c" + vrt::str(dupNames ? r.below(2) : j); }
+      in += '\n';
+    }
+    bool namedRows = (rowNameMode == 1 && header) || rowNameMode == 2;
+    for (size_t i = 0; i < nr; ++i)
+    {
+      string line;
+      if (namedRows) line += "r" + vrt::str(dupNames ? r.below(2) : i);
+      for (size_t j = 0; j < nc; ++j) { if (!line.empty() || j) line += '\t'; line += vrt::str(i * 10 + j); }
+      in += line + "\n";
+    }
+    runOne(T, in, "table-edits");
+  }
+}
+
+// Directed generator 2: integers at and next to the bounds of int / unsigned / long (and the 16-bit ones), written in every notation
+// the number recognisers accept: plain, with an exponent (e0, e+0, e00, a scaled mantissa with e1..e3), with leading zeros, with each
+// scientific-notation character option; pushed through toInt (checked against the value the digits denote, fz::checkedToInt),
+// toDouble, fromString<>/to<> and the recognise-then-convert route.
+void caseIntBoundary(vrt::Case& c)
+{
+  const size_t T = 0; // "text"
+  static const char* centers[] = { "2147483648", "2147483648", "2147483648", "4294967296", "9223372036854775808", "32768", "65536", "1000000000", "10000000000" };
+  for (int rep = 0; rep < 8; ++rep)
+  {
+    vrt::Rng& r = c.rng;
+    // value = center + delta, |delta| <= 3, as a decimal string (string arithmetic on the last digits: all centers end far from a carry chain except powers of ten)
+    string cs = centers[r.below(sizeof(centers) / sizeof(centers[0]))];
+    int delta = static_cast<int>(r.below(7)) - 3;
+    bool neg = r.chance(0.4);
+    string mant;
+    {
+      // big-number add of a small delta
+      vector<int> d; for (char ch : cs) d.push_back(ch - '0');
+      int carry = delta;
+      for (size_t i = d.size(); i-- > 0 && carry != 0;) { int v = d[i] + carry; carry = 0; while (v < 0) { v += 10; --carry; } while (v > 9) { v -= 10; ++carry; } d[i] = v; }
+      size_t b = 0; while (b + 1 < d.size() && d[b] == 0) ++b;
+      for (size_t i = b; i < d.size(); ++i) mant += static_cast<char>('0' + d[i]);
+    }
+    // notation
+    size_t shift = 0;
+    while (shift < 3 && mant.size() > 1 && mant[mant.size() - 1] == '0' && r.chance(0.7)) { mant.resize(mant.size() - 1); ++shift; }
+    size_t notation = r.below(6);
+    char sciChar = 'e';
+    unsigned char sciByte = 0;
+    size_t route = r.below(8);
+    if (route < 4) { static const char set[] = "eE.d"; size_t k = r.below(r.chance(0.7) ? 1 : 4); sciChar = set[k]; sciByte = static_cast<unsigned char>(k == 2 ? 2 : k == 3 ? 3 : k); }
+    string text = string(neg ? "-" : "") + string(r.chance(0.15) ? "00" : "") + mant;
+    string ex = vrt::str(shift);
+    if (shift > 0 && notation == 0) notation = 1; // the scaled mantissa needs its exponent
+    switch (notation)
+    {
+    case 0: break;
+    case 1: text += string(1, sciChar) + ex; break;
+    case 2: text += string(1, sciChar) + "+" + ex; break;
+    case 3: text += string(1, sciChar) + "0" + ex; break;
+    case 4: text += string(1, sciChar) + "+00" + ex; break;
+    default: if (shift == 0) text += ".0"; else text += string(1, sciChar) + ex;
+    }
+    string in;
+    switch (route)
+    {
+    case 0: case 1: case 2: case 3: in = string(1, '\x05') + string(1, static_cast<char>(sciByte)) + text; break;      // toInt(s, sci)
+    case 4: in = string(1, '\x04') + string(2, '\0') + text; break;                                                       // toDouble
+    case 5: in = string(1, '\x06') + text; break;                                                                         // fromString<double/int>, to<unsigned>
+    case 6: in = string(1, '\x03') + string(2, '\0') + text; break;                                                       // recognisers
+    default: in = string(1, '\x10') + (r.chance(0.5) ? " " : "") + text + (r.chance(0.5) ? "\n" : "");                    // recognise, then convert
+    }
+    runOne(T, in, "int-boundary");
+  }
+}
 } // namespace
 
 int main(int argc, char** argv)
@@ -205,9 +316,14 @@ int main(int argc, char** argv)
   groups.push_back({ "gen-interval", q / 2, th / 2, caseGen<7>, 120, false });
   groups.push_back({ "gen-formula", q, th, caseGen<8>, 120, false });
   groups.push_back({ "gen-numcalc", q, th, caseGen<9>, 120, false });
+  groups.push_back({ "gen-table-edits", 1500, 30000, caseTableEdits, 120, false });
+  groups.push_back({ "gen-int-boundary", 500, 10000, caseIntBoundary, 120, false });
   vrt::Meta meta;
   meta.rule = "inputs: every committed grammar-aware seed (fuzz/seeds/*.hex), 8 structural mutants per generated case (byte/bit flips, dictionary token insertion, block deletion/duplication, "
-      "splicing with another seed, truncation, option-byte change; <= 4 KiB), and every file of the corpus accumulated by the libFuzzer stage; the first input bytes select the entry point inside "
+      "splicing with another seed, truncation, option-byte change; <= 4 KiB), and every file of the corpus accumulated by the libFuzzer stage; plus two directed generators: gen-table-edits (a small table and 3-16 edits, valid and invalid ones mixed - wrong width, duplicate/unknown name, index out of range - "
+      "the target goes on after every rejected edit and checks after each step: row-name count == row count, column-name count == column count, column length == row count, by-name reads of every reported name) "
+      "and gen-int-boundary (integers within 3 of 2^15, 2^16, 2^31, 2^32, 2^63, 10^9, 10^10, either sign, plain / exponent / scaled mantissa / leading zeros / each scientific-notation character; "
+      "toInt results are compared with the value the digits denote); the first input bytes select the entry point inside "
       "the group and every boolean/character option. A class key = (entry-point group, option byte mod 32, outcome returned/bpp-exception/foreign); the libFuzzer stage adds coverage-guided inputs "
       "and reports its own counters (executions, coverage edges, corpus size) in the evidence.";
   meta.assumptions = {
